@@ -50,4 +50,11 @@ def rules(t):
             if len(sends) > 1: r.bad(f"arm|{nm}", sends[1], f"{nm}: more than one datagram sent")
     out.append(r)
     out.append(shared.aad_rule(t, "C19.f", "token"))
+    r = RuleResult("C19.g", "a reply is produced only behind the connect-token / challenge acceptance gate (shared with C05: version, protocol, expiry, token open, host list, token reuse, challenge ownership)", floor=8)
+    import rules.C05 as C05
+    for rr in C05.rules(t):
+        if rr.id in ("C05.a1", "C05.a2", "C05.a3", "C05.a4", "C05.a5", "C05.a6", "C05.c1", "C05.c3", "C05.g"):
+            r.sites += rr.sites
+            for v in rr.violations: r.bad(v.key, v.site, v.msg)
+    out.append(r)
     return out
